@@ -6,6 +6,7 @@ import CssVerif.Driver.Proto
 import CssVerif.Model.Tokenizer
 import CssVerif.Gen.Productions
 import CssVerif.Driver.DeclOps
+import CssVerif.Driver.SheetOps
 open CssVerif CssVerif.Proto
 
 def showTok (t : Tok) : String :=
@@ -40,6 +41,7 @@ def step (line : String) : String :=
   | ["tok", mode, hex] => opTok mode hex
   | ["re", idx, prev, hex] => opRe idx prev hex
   | ["decl", hist] => DeclOps.run hist
+  | ["sheet", fx, hist] => SheetOps.run fx hist
   | _ => "bad-op"
 
 partial def loop (h : IO.FS.Stream) (out : IO.FS.Stream) : IO Unit := do
